@@ -210,6 +210,19 @@ func (c *Ctx) Expired() bool {
 	return false
 }
 
+// Slice limits the budget to the given fraction of what is left until the
+// returned function is called (a check with two parts uses it so that the
+// first part cannot starve the second). A part that is cut reports its cap as
+// usual, so the run is not called exhaustive.
+func (c *Ctx) Slice(frac float64) (restore func()) {
+	old := c.deadline
+	c.deadline = time.Now().Add(time.Duration(float64(time.Until(old)) * frac))
+	return func() {
+		c.deadline = old
+		c.expired.Store(false)
+	}
+}
+
 // Remaining is the wall-clock budget left.
 func (c *Ctx) Remaining() time.Duration { return time.Until(c.deadline) }
 
